@@ -97,10 +97,7 @@ theorem foreign_untouched_lts {own : String} {s s' : State} {l : Label} (hr : Re
       · rw [h.1]
       · rw [h.2.2, filter_applyFns]
   | editFins x => exact absurd rfl (hl x)
-  | decide e =>
-    unfold step at hs; split at hs; · cases hs
-    simp only [stepDecide] at hs
-    split at hs <;> cases hs; rfl
+  | decide e v => rw [step_decide_eq hs]
   | mergePatch =>
     unfold step at hs; split at hs; · cases hs
     simp only [stepMerge] at hs
@@ -117,10 +114,10 @@ theorem foreign_untouched_lts {own : String} {s s' : State} {l : Label} (hr : Re
                  cases hs; rfl
   | toggleDmn => unfold step at hs; split at hs; · cases hs
                  cases hs; rfl
-  | handlerFinishes =>
-    unfold step at hs; split at hs; · cases hs
-    simp only at hs
-    split at hs <;> cases hs; rfl
+  | write d m => unfold step at hs; split at hs; · cases hs
+                 cases hs; rfl
+  | handlerFinishes => unfold step at hs; split at hs; · cases hs
+                       cases hs; rfl
   | daemonExits o =>
     unfold step at hs; split at hs; · cases hs
     simp only at hs
@@ -250,22 +247,29 @@ theorem conflict_carries_nothing {own : String} {s s' : State} {p : Pending} {fo
         · rw [h] at hacc; cases hacc.1
         · exact absurd hacc.2 h
 
-/-- Hence, in every reachable state — after any number of conflicts — a cycle's fns are exactly
-the decision computed from the object it sees NOW and the memory NOW; nothing stale is mixed in,
-and the JSON patch will be tested against that very version. -/
-theorem cycle_decides_anew {own : String} {s s' : State} {e : Env} (hr : Reach own s)
-    (hs : step own s (.decide e) = some s') :
-    s.mem = [] ∧ ∃ p, s'.pending = some p ∧ p.fns = (decision (inputs own s e)).fns ∧
-      p.rvTest = s.rv ∧ p.view = s.fins := by
+/-- Hence, in every reachable state — after any number of conflicts — a cycle's fns are exactly the decision
+computed from the event body it was given and the memory NOW; nothing stale is carried in; the JSON patch will
+be tested against the body's version, and a body of the current version IS the current state. -/
+theorem cycle_decides_anew {own : String} {s s' : State} {e : Env} {v : Snap} (hr : Reach own s)
+    (hs : step own s (.decide e v) = some s') :
+    s.mem = [] ∧ (v.rv = s.rv → v = snap s) ∧
+    ∃ p, s'.pending = some p ∧ p.fns = (decision (inputs own v s e)).fns ∧ p.rvTest = v.rv ∧ p.view = v.fins := by
   have hm := mem_nil_reach hr
-  refine ⟨hm, ?_⟩
-  unfold step at hs
-  split at hs
-  · cases hs
-  simp only [stepDecide] at hs
-  split at hs
-  · cases hs
-  · cases hs
+  have heq := step_decide_eq hs
+  refine ⟨hm, ?_, ?_⟩
+  · unfold step at hs
+    split at hs
+    · cases hs
+    simp only [stepDecide] at hs
+    split at hs
+    · cases hs
+    · split at hs
+      · cases hs
+      · next hguard =>
+        simp only [Bool.or_eq_true, Bool.not_eq_true', decide_eq_false_iff_not, Bool.and_eq_true, beq_iff_eq,
+          bne_iff_ne, ne_eq, not_or, Decidable.not_not, not_and] at hguard
+        exact hguard.2
+  · rw [heq]
     exact ⟨_, rfl, by simp [hm], rfl, rfl⟩
 
 -- the guard constrains merge patches only (by definition)
@@ -277,18 +281,20 @@ a label edit makes the deletion handler mismatch, the cycle queues the removal; 
 (the handler matches again) slips in before the JSON patch → 422; the next cycle decides anew — no
 removal — and the object keeps its finalizer while the handler has not finished. -/
 example (own : String) :
-    run own w0 [.decide quiet, .jsonPatch false, .mark, .toggleDel, .decide quiet, .toggleDel,
-                .jsonPatch false, .decide quiet, .jsonPatch false] =
+    run own w0 [.decide quiet ⟨0, false, [], true, false⟩, .jsonPatch false, .mark, .toggleDel,
+                .decide quiet ⟨3, true, [own], false, false⟩, .toggleDel, .jsonPatch false,
+                .decide quiet ⟨4, true, [own], true, false⟩, .jsonPatch false] =
       some { w0 with marked := true, fins := [own], rv := 4 } := by
-  simp [run, step, stepDecide, stepJson, stepMark, w0, quiet, decision, inputs, Decision.fns,
+  simp [run, step, stepDecide, stepJson, stepMark, snap, w0, quiet, decision, inputs, Decision.fns,
     mustBlockG, addG, removeG, earlyG, releaseG, applyFns, Fn.apply, blockDeletion, allowDeletion, allowLoop,
     carry, ownFns]
 
 /-- …and of the former F5c: a rejected addition is not repeated on an object that no longer needs it. -/
 example (own : String) :
-    run own w0 [.decide quiet, .toggleDel, .jsonPatch false, .decide quiet, .jsonPatch false] =
+    run own w0 [.decide quiet ⟨0, false, [], true, false⟩, .toggleDel, .jsonPatch false,
+                .decide quiet ⟨1, false, [], false, false⟩, .jsonPatch false] =
       some { w0 with matchDel := false, rv := 1 } := by
-  simp [run, step, stepDecide, stepJson, w0, quiet, decision, inputs, Decision.fns,
+  simp [run, step, stepDecide, stepJson, snap, w0, quiet, decision, inputs, Decision.fns,
     mustBlockG, addG, removeG, earlyG, releaseG, applyFns, Fn.apply, blockDeletion, carry, ownFns]
 
 /-- F5b in the model: no 422 at all. The finalizer is added; deletion is requested; a label edit makes
@@ -297,12 +303,13 @@ the foreign label edit lands before its merge patch, whose response re-bases the
 theorem stale_release_via_merge_witness (own : String) :
     ∃ s s', Reach own s ∧ step own s (.jsonPatch false) = some s' ∧
       own ∈ s.fins ∧ s.marked = true ∧ required s' = true ∧ own ∉ s'.fins ∧ s'.gone = true ∧ s.mem = [] := by
-  let ls : List Label := [.decide quiet, .jsonPatch false, .mark, .toggleDel,
-                          .decide { quiet with merge := true }, .toggleDel, .mergePatch]
+  let ls : List Label := [.decide quiet ⟨0, false, [], true, false⟩, .jsonPatch false, .mark, .toggleDel,
+                          .decide { quiet with merge := true } ⟨3, true, [own], false, false⟩, .toggleDel, .mergePatch]
   have hrun : run own w0 ls = some
       { w0 with marked := true, fins := [own], rv := 4, mem := [],
-                pending := some { fns := [Fn.allow, Fn.allow], rvTest := 4, view := [own], merge := false } } := by
-    simp [ls, run, step, stepDecide, stepJson, stepMerge, stepMark, w0, quiet, decision, inputs, Decision.fns,
+                pending := some { fns := [Fn.allow, Fn.allow], rvTest := 4, view := [own], merge := false,
+                                  mergeChanges := false } } := by
+    simp [ls, run, step, stepDecide, stepJson, stepMerge, stepMark, snap, w0, quiet, decision, inputs, Decision.fns,
       mustBlockG, addG, removeG, earlyG, releaseG, applyFns, Fn.apply, blockDeletion, allowDeletion]
   refine ⟨_, { w0 with marked := true, fins := [], rv := 5, gone := true }, reach_of_run ls (Reach.init (by simp [Init, w0])) hrun, ?_, ?_⟩
   · simp [step, stepJson, w0, applyFns, Fn.apply, allowDeletion, allowLoop]
@@ -324,24 +331,25 @@ theorem released_in_one_quiet_cycle (own : String) (s : State) (e : Env)
     (hg : s.gone = false) (hp : s.pending = none) (hmem : s.mem = [])
     (hm : s.marked = true) (hown : own ∈ s.fins) (hset : Settled s)
     (hc : e.consistent = true) (hod : e.otherDelays = false) (hdr : e.delReset = false) :
-    ∃ s', run own s (cycleLabels e) = some s' ∧ own ∉ s'.fins ∧ s'.mem = [] ∧ s'.pending = none ∧
+    ∃ s', run own s (cycleLabels s e) = some s' ∧ own ∉ s'.fins ∧ s'.mem = [] ∧ s'.pending = none ∧
           (s'.fins = [] → s'.gone = true) :=
   ⟨afterCycle own s e, cycle_run own s e hg hp, afterCycle_released own s e hmem hm hown hset hc hod hdr⟩
 
 /-! ### … and such a cycle does come (the wake-up layer `LState`/`lstep`, see the model)
 
-  `LReachG`: any run of the wake-up layer — events are consumed one per cycle, a cycle may leave early as
-  inconsistent only while another event is queued, cycles that returned delays sleep and touch — under
-  `LGuard`: no HTTP 422 injected without a real write (`injected_422_loses_wakeup` shows why it is needed).
-  Restarts, foreign writes, genuine conflicts, completions, no-op patches are free. -/
+  `LReachG`: any run of the wake-up layer — the worker takes the queued events one per cycle, oldest first,
+  each cycle decides on the body of ITS event (stale bodies included); a cycle may leave early as inconsistent
+  only while another event is queued; cycles that returned delays sleep and touch unless their patch changed
+  the object — under `LGuard`: no HTTP 422 injected without a real write (`injected_422_loses_wakeup` shows
+  why it is needed). Restarts, foreign writes, genuine conflicts, completions, no-op patches are free. -/
 
 /-- The wake-up layer only schedules the base LTS: every safety theorem above holds of its runs. -/
 theorem wakeup_layer_refines {own : String} {s : LState} (h : LReach own s) : Reach own s.base :=
   lreach_base h
 
 /-- No lost wake-up: an object that waits for its release (exists, marked, holds the own finalizer) always
-has an enabled step of the operator ahead — a request of the cycle in flight, a cycle for a queued event, or
-the touch that ends the sleep. -/
+has an enabled step of the operator ahead — a request of the cycle in flight, a cycle on the oldest queued
+event, or the touch that ends the sleep. -/
 theorem no_lost_wakeup {own : String} {s : LState} (h : LReachG own s) (hw : Waiting own s.base) :
     ∃ l, LLabel.isOperator l = true ∧ (lstep own s l).isSome = true := by
   have hI := linv_reach h
@@ -353,38 +361,89 @@ theorem no_lost_wakeup {own : String} {s : LState} (h : LReachG own s) (hw : Wai
     · obtain ⟨s1, h1, _⟩ := lstep_merge_enabled (own := own) hw.1 hp hm
       exact ⟨.base .mergePatch, rfl, by rw [h1]; rfl⟩
   | none =>
-    rcases hI.j1 hp hw with hev | hsl
-    · obtain ⟨s', hrun, _⟩ := lcycle_quiet own s hw.1 hp hev
-      refine ⟨.base (.decide quiet), rfl, ?_⟩
-      simp only [lrun] at hrun
-      cases hst : lstep own s (.base (.decide quiet)) with
-      | none => simp [hst] at hrun
-      | some _ => rfl
+    rcases hI.j1 hp hw with hne | hsl
+    · obtain ⟨v, rest, hq⟩ : ∃ v rest, s.queue = v :: rest := by
+        cases hqq : s.queue with
+        | nil => exact absurd hqq hne
+        | cons v rest => exact ⟨v, rest, rfl⟩
+      have hv := hI.q.1 v (by rw [hq]; simp)
+      obtain ⟨b1, hb1⟩ := step_decide_enabled own s.base quiet v hw.1 hp hv.1 hv.2
+      refine ⟨.base (.decide quiet v), rfl, ?_⟩
+      simp only [lstep, hq, bne_self_eq_false, Bool.false_eq_true, if_false, hb1, Option.map_some, Option.isSome_some]
+      simp [quiet]
     · refine ⟨.touch, rfl, ?_⟩
       have hpn : s.base.pending.isNone = true := by rw [hp]; rfl
-      simp [lstep, hsl, hpn, hw.1]
+      simp [lstep, hsl, hpn, step, hw.1]
 
-/-- Released under fairness: from EVERY reachable state in which the object waits for its release and
-nothing is left to wait for, the operator's own enabled steps — at most five: the rest of the cycle in
-flight, the touch that ends a sleep, one cycle that sees a consistent state — take the finalizer off.
-(Fairness = these steps are eventually taken and one cycle eventually sees a consistent state; each
-inconsistent cycle consumes a queued event, so only finitely many can precede it without new events.) -/
-theorem released_under_fairness {own : String} {s : LState} (h : LReachG own s)
-    (hw : Waiting own s.base) (hset : Settled s.base) :
-    ∃ ls s', ls.length ≤ 5 ∧ (∀ l ∈ ls, LLabel.isOperator l = true) ∧
+/-
+  FULL clause ("once all of them are finished it is removed so that deletion proceeds") as an inevitability:
+  every run in which the operator's enabled steps are eventually taken releases a waiting & settled object.
+  NOT proved, and not true of the LTS without further assumptions on the environment's part of the labels:
+  a cycle's label carries environment choices, and `consistent = false` (another event is queued),
+  `otherDelays = true` (some other handler, e.g. an optional deletion handler, still retries) or
+  `delReset = true` (the deletion handler is re-scheduled) make that cycle keep the finalizer — by design.
+  Proved instead: `no_lost_wakeup` (the operator is never stuck), `released_in_one_quiet_cycle` (ANY cycle on
+  the current state with `consistent`, no other delay, no re-scheduling releases, whatever else it carries), and
+  the reachability statement below, whose path takes exactly such cycles (`quiet`).
+-/
+
+/-- Release is reachable by the operator alone when the environment is quiet: from EVERY guarded-reachable
+state in which the object waits for its release, nothing is left to wait for, and every queued event already
+shows the object marked (an older, unmarked body would make its cycle respawn the daemon — kopf does that),
+the operator's own enabled steps take the finalizer off: the rest of the cycle in flight, the touch that
+ends a sleep, and one QUIET cycle per queued event, oldest first — the cycles on stale bodies change
+nothing (their JSON patch, if any, meets HTTP 422), the one on the current body releases. -/
+theorem release_reachable_when_quiet {own : String} {s : LState} (h : LReachG own s)
+    (hw : Waiting own s.base) (hset : Settled s.base) (hmk : ∀ v ∈ s.queue, v.marked = true) :
+    ∃ ls s', ls.length ≤ 2 * s.queue.length + 9 ∧ (∀ l ∈ ls, LLabel.isOperator l = true) ∧
       lrun own s ls = some s' ∧ own ∉ s'.base.fins := by
   have hI := linv_reach h
+  -- an idle worker
+  have idle : ∀ (t : LState), LInv own t → t.base.pending = none → Waiting own t.base → Settled t.base →
+      (∀ v ∈ t.queue, v.marked = true) →
+      ∃ ls s', ls.length ≤ 2 * t.queue.length + 3 ∧ (∀ l ∈ ls, LLabel.isOperator l = true) ∧
+        lrun own t ls = some s' ∧ own ∉ s'.base.fins := by
+    intro t hIt hpt hwt hst hmt
+    cases hqq : t.queue with
+    | cons v rest =>
+      obtain ⟨ls, s', hlen, hop, hrun, hrel⟩ := drain own rest.length t hIt hpt hwt hst hmt (by rw [hqq]; simp)
+      exact ⟨ls, s', by simp only [List.length_cons]; omega, hop, hrun, hrel⟩
+    | nil =>
+      have hsl : t.sleeping = true := (hIt.j1 hpt hwt).resolve_left (by rw [hqq]; simp)
+      have hpn : t.base.pending.isNone = true := by rw [hpt]; rfl
+      let b : State := { t.base with matchDel := t.base.matchDel, matchDmn := t.base.matchDmn, rv := t.base.rv + 1 }
+      have ht : lstep own t .touch = some { t with base := b, queue := t.queue ++ [snap b], sleeping := false } := by
+        simp [lstep, hsl, hpn, step, hwt.1, b]
+      have hI1 : LInv own { t with base := b, queue := t.queue ++ [snap b], sleeping := false } :=
+        linv_step hIt (show LGuard .touch from trivial) ht
+      obtain ⟨ls, s', hlen, hop, hrun, hrel⟩ := drain own 0 _ hI1 hpt
+        ⟨hwt.1, hwt.2.1, hwt.2.2⟩ ⟨hst.1, hst.2⟩
+        (by intro v hv; simp only [hqq, List.nil_append, List.mem_singleton] at hv; subst hv; exact hwt.2.1)
+        (by simp [hqq])
+      refine ⟨.touch :: ls, s', by simp only [List.length_cons, List.length_nil]; omega, ?_, ?_, hrel⟩
+      · intro l hl
+        rcases List.mem_cons.mp hl with rfl | hl
+        · rfl
+        · exact hop l hl
+      · simp only [lrun, ht, Option.bind_some]; exact hrun
   -- after the JSON patch of the cycle in flight
   have afterJson : ∀ (t : LState), LInv own t → t.base.gone = false → t.base.marked = true → Settled t.base →
-      ∀ p, t.base.pending = some p → p.merge = false →
-      ∃ ls s', ls.length ≤ 4 ∧ (∀ l ∈ ls, LLabel.isOperator l = true) ∧ lrun own t ls = some s' ∧ own ∉ s'.base.fins := by
-    intro t hIt hgt hmt hst p hp hm
+      (∀ v ∈ t.queue, v.marked = true) → ∀ p, t.base.pending = some p → p.merge = false →
+      ∃ ls s', ls.length ≤ 2 * t.queue.length + 6 ∧ (∀ l ∈ ls, LLabel.isOperator l = true) ∧
+        lrun own t ls = some s' ∧ own ∉ s'.base.fins := by
+    intro t hIt hgt hmt hst hmkt p hp hm
     obtain ⟨s2, h2, hreq, hpn, hgone⟩ := lstep_json_enabled (own := own) hgt hp hm
     have hI2 : LInv own s2 := linv_step hIt (show LGuard (.base (.jsonPatch false)) from rfl) h2
     by_cases hown : own ∈ s2.base.fins
     · have hw2 : Waiting own s2.base := ⟨hgone hown, by rw [hreq.1]; exact hmt, hown⟩
-      obtain ⟨ls, s', hlen, hop, hrun, hrel⟩ := release_from_idle own s2 hI2 hpn hw2 (settled_of_sameReq hreq hst)
-      refine ⟨.base (.jsonPatch false) :: ls, s', by simp; omega, ?_, ?_, hrel⟩
+      have hgrow := request_queue_grow (l := .jsonPatch false) (Or.inr ⟨false, rfl⟩) h2
+      have hq2 : ∀ v ∈ s2.queue, v.marked = true := by
+        intro v hv
+        rcases hgrow.2 v hv with hv | hv
+        · exact hmkt v hv
+        · subst hv; exact hw2.2.1
+      obtain ⟨ls, s', hlen, hop, hrun, hrel⟩ := idle s2 hI2 hpn hw2 (settled_of_sameReq hreq hst) hq2
+      refine ⟨.base (.jsonPatch false) :: ls, s', by simp only [List.length_cons]; have := hgrow.1; omega, ?_, ?_, hrel⟩
       · intro l hl
         rcases List.mem_cons.mp hl with rfl | hl
         · rfl
@@ -393,37 +452,131 @@ theorem released_under_fairness {own : String} {s : LState} (h : LReachG own s)
     · exact ⟨[.base (.jsonPatch false)], s2, by simp, by simp [LLabel.isOperator], by simp [lrun, h2], hown⟩
   cases hp : s.base.pending with
   | none =>
-    obtain ⟨ls, s', hlen, hop, hrun, hrel⟩ := release_from_idle own s hI hp hw hset
+    obtain ⟨ls, s', hlen, hop, hrun, hrel⟩ := idle s hI hp hw hset hmk
     exact ⟨ls, s', by omega, hop, hrun, hrel⟩
   | some p =>
     cases hm : p.merge
-    · obtain ⟨ls, s', hlen, hop, hrun, hrel⟩ := afterJson s hI hw.1 hw.2.1 hset p hp hm
+    · obtain ⟨ls, s', hlen, hop, hrun, hrel⟩ := afterJson s hI hw.1 hw.2.1 hset hmk p hp hm
       exact ⟨ls, s', by omega, hop, hrun, hrel⟩
     · obtain ⟨s1, h1, hreq, hg1, _, p1, hp1, hm1⟩ := lstep_merge_enabled (own := own) hw.1 hp hm
       have hI1 : LInv own s1 := linv_step hI (show LGuard (.base .mergePatch) from trivial) h1
+      have hgrow := request_queue_grow (l := .mergePatch) (Or.inl rfl) h1
+      have hmk1 : s1.base.marked = true := by rw [hreq.1]; exact hw.2.1
+      have hq1 : ∀ v ∈ s1.queue, v.marked = true := by
+        intro v hv
+        rcases hgrow.2 v hv with hv | hv
+        · exact hmk v hv
+        · subst hv; exact hmk1
       obtain ⟨ls, s', hlen, hop, hrun, hrel⟩ :=
-        afterJson s1 hI1 hg1 (by rw [hreq.1]; exact hw.2.1) (settled_of_sameReq hreq hset) p1 hp1 hm1
-      refine ⟨.base .mergePatch :: ls, s', by simp; omega, ?_, ?_, hrel⟩
+        afterJson s1 hI1 hg1 hmk1 (settled_of_sameReq hreq hset) hq1 p1 hp1 hm1
+      refine ⟨.base .mergePatch :: ls, s', by simp only [List.length_cons]; have := hgrow.1; omega, ?_, ?_, hrel⟩
       · intro l hl
         rcases List.mem_cons.mp hl with rfl | hl
         · rfl
         · exact hop l hl
       · simp only [lrun, h1, Option.bind_some]; exact hrun
 
-/-- The remaining conjunct of `LGuard` is necessary: HTTP 422 injected on the release patch twice, with no
-concurrent write behind it. The patch is non-empty and no version comes back, so the sleep is skipped; no event
-follows; the queued events are used up — the object waits, settled, with NO enabled step of the operator.
+/-- Added in the first cycle that sees an unmarked object without the finalizer while a
+finalizer-requiring handler matches it — whatever is carried, whatever the timing. -/
+theorem add_on_match (own : String) (s : State) (e : Env)
+    (hg : s.gone = false) (hp : s.pending = none) (hm : s.marked = false) (hown : own ∉ s.fins)
+    (hmatch : s.matchDel = true ∨ (s.matchDmn = true ∧ s.dmnForever = false)) :
+    ∃ s', run own s (cycleLabels s e) = some s' ∧ own ∈ s'.fins ∧
+          s'.fins.filter (· != own) = s.fins.filter (· != own) := by
+  refine ⟨afterCycle own s e, cycle_run own s e hg hp, ?_⟩
+  have hmb : (s.matchDel || (s.matchDmn && !s.dmnForever)) = true := by
+    rcases hmatch with h | ⟨h1, h2⟩ <;> simp [*]
+  have hb := add_bool s.matchDel s.matchDmn s.delDone s.dmnLive s.dmnForever e.consistent s.mem.isEmpty
+    e.otherChanging e.otherDelays e.delReset hmb
+  have hin : inputs own (snap s) s e = inputsB s.matchDel s.matchDmn s.delDone s.dmnLive s.dmnForever false false
+      e.consistent s.mem.isEmpty e.otherChanging e.otherDelays e.delReset := by
+    rw [inputs_eq]; simp [hown, hm]
+  have hf := fns_add_only _ hb.1 hb.2.1 hb.2.2
+  have htarget : own ∈ applyFns own (s.mem ++ (decision (inputs own (snap s) s e)).fns) s.fins := by
+    rw [hin, hf]; exact (own_mem_applyFns_snoc own _ Fn.block s.fins).mpr rfl
+  have hne : applyFns own (s.mem ++ (decision (inputs own (snap s) s e)).fns) s.fins ≠ s.fins := by
+    intro heq; rw [heq] at htarget; exact hown htarget
+  simp only [afterCycle, hne, if_false]
+  exact ⟨htarget, filter_applyFns own _ _⟩
+
+/-- Removed in the first cycle that sees the finalizer on an object that no finalizer-requiring
+handler matches any more (marked or not). -/
+theorem remove_on_mismatch (own : String) (s : State) (e : Env)
+    (hg : s.gone = false) (hp : s.pending = none) (hown : own ∈ s.fins)
+    (hmis : s.matchDel = false ∧ (s.matchDmn = false ∨ s.dmnForever = true)) :
+    ∃ s', run own s (cycleLabels s e) = some s' ∧ own ∉ s'.fins ∧
+          s'.fins.filter (· != own) = s.fins.filter (· != own) := by
+  refine ⟨afterCycle own s e, cycle_run own s e hg hp, ?_⟩
+  have hmb : (s.matchDel || (s.matchDmn && !s.dmnForever)) = false := by
+    rcases hmis with ⟨h0, h | h⟩ <;> simp [*]
+  have hb := remove_bool s.matchDel s.matchDmn s.delDone s.dmnLive s.dmnForever s.marked e.consistent
+    s.mem.isEmpty e.otherChanging e.otherDelays e.delReset hmb
+  have hin : inputs own (snap s) s e = inputsB s.matchDel s.matchDmn s.delDone s.dmnLive s.dmnForever s.marked true
+      e.consistent s.mem.isEmpty e.otherChanging e.otherDelays e.delReset := by
+    rw [inputs_eq]; simp [hown]
+  obtain ⟨pre, hpre⟩ := fns_snoc_allow _ hb.1 (by simp [hb.2])
+  have htarget : own ∉ applyFns own (s.mem ++ (decision (inputs own (snap s) s e)).fns) s.fins := by
+    rw [hin, hpre, ← List.append_assoc]
+    intro hmem'
+    have := (own_mem_applyFns_snoc own _ Fn.allow s.fins).mp hmem'
+    cases this
+  have hne : applyFns own (s.mem ++ (decision (inputs own (snap s) s e)).fns) s.fins ≠ s.fins := by
+    intro heq; rw [heq] at htarget; exact htarget hown
+  simp only [afterCycle, hne, if_false]
+  exact ⟨htarget, filter_applyFns own _ _⟩
+
+/-- …and only then: the block queues an addition only when something requires the finalizer on the
+body it is given (`v`, the event's), and a removal only when nothing does or the object is released. -/
+theorem add_remove_on_match (own : String) (v : Snap) (s : State) (e : Env) :
+    (Fn.block ∈ (decision (inputs own v s e)).fns →
+        (v.matchDel = true ∨ (v.matchDmn = true ∧ s.dmnForever = false)) ∧ own ∉ v.fins ∧ v.marked = false) ∧
+    (Fn.allow ∈ (decision (inputs own v s e)).fns → own ∈ v.fins ∧
+        ((v.matchDel = false ∧ (v.matchDmn = false ∨ s.dmnForever = true)) ∨ v.marked = true)) := by
+  have hb := arm_bool v.matchDel v.matchDmn s.delDone s.dmnLive s.dmnForever v.marked (decide (own ∈ v.fins))
+    e.consistent s.mem.isEmpty e.otherChanging e.otherDelays e.delReset
+  rw [← inputs_eq] at hb
+  constructor
+  · intro h
+    rw [block_mem_fns] at h
+    obtain ⟨h1, h2, h3⟩ := hb.1 h
+    refine ⟨?_, by simpa using h2, h3⟩
+    cases hd : v.matchDel
+    · right
+      simp [hd] at h1
+      exact h1
+    · exact Or.inl rfl
+  · intro h
+    rw [allow_mem_fns] at h
+    obtain ⟨h1, h2⟩ := hb.2 h
+    refine ⟨by simpa using h1, ?_⟩
+    rcases h2 with h2 | h2
+    · left
+      simp at h2
+      refine ⟨h2.1, ?_⟩
+      cases hm : v.matchDmn
+      · exact Or.inl rfl
+      · exact Or.inr (h2.2 hm)
+    · exact Or.inr h2
+
+/-! ## The guard of the liveness layer is necessary; the former F7 history -/
+
+/-- `LGuard` is necessary: HTTP 422 injected on the release patch twice, with no concurrent write behind it.
+The patch is non-empty and no version comes back, so the sleep is skipped; no event follows; the queued events
+are used up — the object waits, settled, with NO enabled step of the operator.
 (Not a defect of kopf: the API server answers 422 to the `test` op only after a write, whose event wakes the worker.) -/
 theorem injected_422_loses_wakeup (own : String) :
     ∃ s, LReach own s ∧ Waiting own s.base ∧ Settled s.base ∧
       ∀ l, LLabel.isOperator l = true → lstep own s l = none := by
-  let s0 : LState := { base := w0, events := 1, sleeping := false, cycDelays := false, cycMerge := false, cycChanges := false }
-  let ls : List LLabel := [.base (.decide quiet), .base (.jsonPatch false), .base .mark, .base .handlerFinishes,
-    .base (.decide quiet), .base (.jsonPatch true), .base (.decide quiet), .base (.jsonPatch true)]
+  let s0 : LState := { base := w0, queue := [snap w0], sleeping := false, cycDelays := false, cycMerge := false,
+                       cycChanges := false, cycViewRv := 0 }
+  let v2 : Snap := ⟨2, true, [own], true, false⟩
+  let ls : List LLabel := [.base (.decide quiet ⟨0, false, [], true, false⟩), .base (.jsonPatch false), .base .mark,
+    .base .handlerFinishes, .base (.decide quiet ⟨1, false, [own], true, false⟩), .base (.jsonPatch true),
+    .base (.decide quiet v2), .base (.jsonPatch true)]
   have hrun : lrun own s0 ls = some
       { base := { w0 with marked := true, fins := [own], rv := 2, delDone := true },
-        events := 0, sleeping := false, cycDelays := false, cycMerge := false, cycChanges := false } := by
-    simp [ls, s0, lrun, lstep, step, stepDecide, stepJson, stepMark, w0, quiet, decision, inputs,
+        queue := [], sleeping := false, cycDelays := false, cycMerge := false, cycChanges := false, cycViewRv := 2 } := by
+    simp [ls, s0, v2, lrun, lstep, enqueue, step, stepDecide, stepJson, stepMark, snap, w0, quiet, decision, inputs,
       Decision.fns, mustBlockG, addG, removeG, earlyG, releaseG, applyFns, Fn.apply, blockDeletion, allowDeletion, allowLoop,
       sleepsAfter, changedUnwritten, carry, ownFns]
   have hreach : ∀ (ls : List LLabel) (s s' : LState), LReach own s → lrun own s ls = some s' → LReach own s' := by
@@ -452,99 +605,20 @@ sleep is no longer skipped: the worker sleeps and will touch the object — and 
 plus one quiet cycle release it (before the repair this state had `sleeping = false` and NO enabled step). -/
 example (own : String) :
     let b0 : State := { w0 with matchDel := false, matchDmn := true }
-    let s0 : LState := { base := b0, events := 1, sleeping := false, cycDelays := false, cycMerge := false, cycChanges := false }
+    let s0 : LState := { base := b0, queue := [snap b0], sleeping := false, cycDelays := false, cycMerge := false,
+                         cycChanges := false, cycViewRv := 0 }
     let noop : Env := { quiet with merge := true }
-    lrun own s0 [.base (.decide quiet), .base (.jsonPatch false), .base .mark,
-      .base (.decide noop), .base .mergePatch, .base (.jsonPatch false),
-      .base (.decide noop), .base .mergePatch, .base (.jsonPatch false), .base (.daemonExits false),
-      .touch, .base (.decide quiet), .base (.jsonPatch false)] =
-    some { base := { b0 with gone := true, marked := true, fins := [], rv := 3, dmnLive := false },
-           events := 1, sleeping := false, cycDelays := false, cycMerge := false, cycChanges := false } := by
-  simp [lrun, lstep, step, stepDecide, stepJson, stepMerge, stepMark, w0, quiet, decision, inputs,
+    lrun own s0 [.base (.decide quiet ⟨0, false, [], false, true⟩), .base (.jsonPatch false), .base .mark,
+      .base (.decide noop ⟨1, false, [own], false, true⟩), .base .mergePatch, .base (.jsonPatch false),
+      .base (.decide noop ⟨2, true, [own], false, true⟩), .base .mergePatch, .base (.jsonPatch false),
+      .base (.daemonExits false),
+      .touch, .base (.decide quiet ⟨3, true, [own], false, true⟩), .base (.jsonPatch false)] =
+    some { base := { b0 with gone := true, marked := true, fins := [], rv := 4, dmnLive := false },
+           queue := [⟨4, true, [], false, true⟩], sleeping := false, cycDelays := false, cycMerge := false,
+           cycChanges := false, cycViewRv := 3 } := by
+  simp [lrun, lstep, enqueue, step, stepDecide, stepJson, stepMerge, stepMark, snap, w0, quiet, decision, inputs,
     Decision.fns, mustBlockG, addG, removeG, earlyG, releaseG, applyFns, Fn.apply, blockDeletion, allowDeletion, allowLoop,
     sleepsAfter, changedUnwritten]
-
-/-- Added in the first cycle that sees an unmarked object without the finalizer while a
-finalizer-requiring handler matches it — whatever is carried, whatever the timing. -/
-theorem add_on_match (own : String) (s : State) (e : Env)
-    (hg : s.gone = false) (hp : s.pending = none) (hm : s.marked = false) (hown : own ∉ s.fins)
-    (hmatch : s.matchDel = true ∨ (s.matchDmn = true ∧ s.dmnForever = false)) :
-    ∃ s', run own s (cycleLabels e) = some s' ∧ own ∈ s'.fins ∧
-          s'.fins.filter (· != own) = s.fins.filter (· != own) := by
-  refine ⟨afterCycle own s e, cycle_run own s e hg hp, ?_⟩
-  have hmb : (s.matchDel || (s.matchDmn && !s.dmnForever)) = true := by
-    rcases hmatch with h | ⟨h1, h2⟩ <;> simp [*]
-  have hb := add_bool s.matchDel s.matchDmn s.delDone s.dmnLive s.dmnForever e.consistent s.mem.isEmpty
-    e.otherChanging e.otherDelays e.delReset hmb
-  have hin : inputs own s e = inputsB s.matchDel s.matchDmn s.delDone s.dmnLive s.dmnForever false false
-      e.consistent s.mem.isEmpty e.otherChanging e.otherDelays e.delReset := by
-    rw [inputs_eq, hm]; simp [hown]
-  have hf := fns_add_only _ hb.1 hb.2.1 hb.2.2
-  have htarget : own ∈ applyFns own (s.mem ++ (decision (inputs own s e)).fns) s.fins := by
-    rw [hin, hf]; exact (own_mem_applyFns_snoc own _ Fn.block s.fins).mpr rfl
-  have hne : applyFns own (s.mem ++ (decision (inputs own s e)).fns) s.fins ≠ s.fins := by
-    intro heq; rw [heq] at htarget; exact hown htarget
-  simp only [afterCycle, hne, if_false]
-  exact ⟨htarget, filter_applyFns own _ _⟩
-
-/-- Removed in the first cycle that sees the finalizer on an object that no finalizer-requiring
-handler matches any more (marked or not). -/
-theorem remove_on_mismatch (own : String) (s : State) (e : Env)
-    (hg : s.gone = false) (hp : s.pending = none) (hown : own ∈ s.fins)
-    (hmis : s.matchDel = false ∧ (s.matchDmn = false ∨ s.dmnForever = true)) :
-    ∃ s', run own s (cycleLabels e) = some s' ∧ own ∉ s'.fins ∧
-          s'.fins.filter (· != own) = s.fins.filter (· != own) := by
-  refine ⟨afterCycle own s e, cycle_run own s e hg hp, ?_⟩
-  have hmb : (s.matchDel || (s.matchDmn && !s.dmnForever)) = false := by
-    rcases hmis with ⟨h0, h | h⟩ <;> simp [*]
-  have hb := remove_bool s.matchDel s.matchDmn s.delDone s.dmnLive s.dmnForever s.marked e.consistent
-    s.mem.isEmpty e.otherChanging e.otherDelays e.delReset hmb
-  have hin : inputs own s e = inputsB s.matchDel s.matchDmn s.delDone s.dmnLive s.dmnForever s.marked true
-      e.consistent s.mem.isEmpty e.otherChanging e.otherDelays e.delReset := by
-    rw [inputs_eq]; simp [hown]
-  obtain ⟨pre, hpre⟩ := fns_snoc_allow _ hb.1 (by simp [hb.2])
-  have htarget : own ∉ applyFns own (s.mem ++ (decision (inputs own s e)).fns) s.fins := by
-    rw [hin, hpre, ← List.append_assoc]
-    intro hmem'
-    have := (own_mem_applyFns_snoc own _ Fn.allow s.fins).mp hmem'
-    cases this
-  have hne : applyFns own (s.mem ++ (decision (inputs own s e)).fns) s.fins ≠ s.fins := by
-    intro heq; rw [heq] at htarget; exact htarget hown
-  simp only [afterCycle, hne, if_false]
-  exact ⟨htarget, filter_applyFns own _ _⟩
-
-/-- …and only then: the block queues an addition only when something requires the finalizer on the
-object it sees, and a removal only when nothing does or the object is released. -/
-theorem add_remove_on_match (own : String) (s : State) (e : Env) :
-    (Fn.block ∈ (decision (inputs own s e)).fns →
-        (s.matchDel = true ∨ (s.matchDmn = true ∧ s.dmnForever = false)) ∧ own ∉ s.fins ∧ s.marked = false) ∧
-    (Fn.allow ∈ (decision (inputs own s e)).fns → own ∈ s.fins ∧
-        ((s.matchDel = false ∧ (s.matchDmn = false ∨ s.dmnForever = true)) ∨ s.marked = true)) := by
-  have hb := arm_bool s.matchDel s.matchDmn s.delDone s.dmnLive s.dmnForever s.marked (decide (own ∈ s.fins))
-    e.consistent s.mem.isEmpty e.otherChanging e.otherDelays e.delReset
-  rw [← inputs_eq] at hb
-  constructor
-  · intro h
-    rw [block_mem_fns] at h
-    obtain ⟨h1, h2, h3⟩ := hb.1 h
-    refine ⟨?_, by simpa using h2, h3⟩
-    cases hd : s.matchDel
-    · right
-      simp [hd] at h1
-      exact h1
-    · exact Or.inl rfl
-  · intro h
-    rw [allow_mem_fns] at h
-    obtain ⟨h1, h2⟩ := hb.2 h
-    refine ⟨by simpa using h1, ?_⟩
-    rcases h2 with h2 | h2
-    · left
-      simp at h2
-      refine ⟨h2.1, ?_⟩
-      cases hm : s.matchDmn
-      · exact Or.inl rfl
-      · exact Or.inr (h2.2 hm)
-    · exact Or.inr h2
 
 /-! ## Non-vacuity -/
 
@@ -552,22 +626,28 @@ theorem add_remove_on_match (own : String) (s : State) (e : Env) :
 example : ∃ s, ReachG "k" s ∧ s.gone = true ∧ s.delDone = true := by
   refine ⟨{ w0 with gone := true, marked := true, rv := 3, delDone := true }, ?_, rfl, rfl⟩
   have s0 : ReachG "k" w0 := ReachG.init (by simp [Init, w0])
-  have s1 := ReachG.step (l := .decide quiet) s0 trivial (s' := { w0 with pending := some ⟨[Fn.block], 0, [], false⟩ }) (by decide)
+  have s1 := ReachG.step (l := .decide quiet ⟨0, false, [], true, false⟩) s0 trivial
+    (s' := { w0 with pending := some ⟨[Fn.block], 0, [], false, false⟩ }) (by decide)
   have s2 := ReachG.step (l := .jsonPatch false) s1 trivial
     (s' := { w0 with fins := ["k"], rv := 1 }) (by decide)
   have s3 := ReachG.step (l := .mark) s2 trivial (s' := { w0 with fins := ["k"], rv := 2, marked := true }) (by decide)
   have s4 := ReachG.step (l := .handlerFinishes) s3 trivial
     (s' := { w0 with fins := ["k"], rv := 2, marked := true, delDone := true }) (by decide)
-  have s5 := ReachG.step (l := .decide quiet) s4 trivial
-    (s' := { w0 with fins := ["k"], rv := 2, marked := true, delDone := true, pending := some ⟨[Fn.allow], 2, ["k"], false⟩ }) (by decide)
+  have s5 := ReachG.step (l := .decide quiet ⟨2, true, ["k"], true, false⟩) s4 trivial
+    (s' := { w0 with fins := ["k"], rv := 2, marked := true, delDone := true,
+                     pending := some ⟨[Fn.allow], 2, ["k"], false, false⟩ }) (by decide)
   exact ReachG.step (l := .jsonPatch false) s5 trivial (by decide)
 
 /-- The hypotheses of `never_early_partial` are met with the requirement in force: a marked,
-blocked object whose handler has failed so far keeps the finalizer through a cycle. -/
-example : ∃ s s', ReachG "k" s ∧ step "k" s (.decide quiet) = some s' ∧ "k" ∈ s.fins ∧ required s' = true := by
-  refine ⟨{ w0 with fins := ["k"], rv := 2, marked := true }, _, ?_, rfl, by decide, by decide⟩
+blocked object whose handler has failed so far keeps the finalizer through a cycle — also one on a stale body. -/
+example : ∃ s s', ReachG "k" s ∧ step "k" s (.decide quiet ⟨1, false, ["k"], true, false⟩) = some s' ∧
+    "k" ∈ s.fins ∧ required s' = true := by
+  refine ⟨{ w0 with fins := ["k"], rv := 2, marked := true },
+          { w0 with fins := ["k"], rv := 2, marked := true, pending := some ⟨[], 1, ["k"], false, false⟩ },
+          ?_, by decide, by decide, by decide⟩
   have s0 : ReachG "k" w0 := ReachG.init (by simp [Init, w0])
-  have s1 := ReachG.step (l := .decide quiet) s0 trivial (s' := { w0 with pending := some ⟨[Fn.block], 0, [], false⟩ }) (by decide)
+  have s1 := ReachG.step (l := .decide quiet ⟨0, false, [], true, false⟩) s0 trivial
+    (s' := { w0 with pending := some ⟨[Fn.block], 0, [], false, false⟩ }) (by decide)
   have s2 := ReachG.step (l := .jsonPatch false) s1 trivial
     (s' := { w0 with fins := ["k"], rv := 1 }) (by decide)
   exact ReachG.step (l := .mark) s2 trivial (by decide)
@@ -575,39 +655,53 @@ example : ∃ s s', ReachG "k" s ∧ step "k" s (.decide quiet) = some s' ∧ "k
 /-- The monitor bit does become true (so `never_early_inv_partial` is not vacuous). -/
 example : ∃ s, ReachGH "k" s true := by
   have s0 : ReachGH "k" w0 false := ReachGH.init (by simp [Init, w0])
-  have s1 := ReachGH.step (l := .decide quiet) s0 trivial (s' := { w0 with pending := some ⟨[Fn.block], 0, [], false⟩ }) (by decide)
+  have s1 := ReachGH.step (l := .decide quiet ⟨0, false, [], true, false⟩) s0 trivial
+    (s' := { w0 with pending := some ⟨[Fn.block], 0, [], false, false⟩ }) (by decide)
   have s2 := ReachGH.step (l := .jsonPatch false) s1 trivial
     (s' := { w0 with fins := ["k"], rv := 1 }) (by decide)
   have s3 := ReachGH.step (l := .mark) s2 trivial (s' := { w0 with fins := ["k"], rv := 2, marked := true }) (by decide)
   exact ⟨_, s3⟩
 
-/-- `released_eventually`, `add_on_match`, `remove_on_mismatch` on concrete objects. -/
+/-- `released_in_one_quiet_cycle`, `add_on_match`, `remove_on_mismatch` on concrete objects. -/
 example : Settled { w0 with fins := ["a", "k"], marked := true, delDone := true } := ⟨fun _ => rfl, rfl⟩
-example : run "k" { w0 with fins := ["a", "k"], marked := true, delDone := true } (cycleLabels quiet) =
+example : run "k" { w0 with fins := ["a", "k"], marked := true, delDone := true }
+      (cycleLabels { w0 with fins := ["a", "k"], marked := true, delDone := true } quiet) =
     some { w0 with fins := ["a"], marked := true, delDone := true, rv := 1 } := by decide
-example : run "k" { w0 with fins := ["a"] } (cycleLabels { quiet with merge := true }) =
-    some { w0 with fins := ["a", "k"], rv := 1 } := by decide
-example : run "k" { w0 with fins := ["a", "k", "b"], matchDel := false } (cycleLabels quiet) =
+example : run "k" { w0 with fins := ["a"] } (cycleLabels { w0 with fins := ["a"] } { quiet with merge := true, mergeChanges := true }) =
+    some { w0 with fins := ["a", "k"], rv := 2 } := by decide
+example : run "k" { w0 with fins := ["a", "k", "b"], matchDel := false }
+      (cycleLabels { w0 with fins := ["a", "k", "b"], matchDel := false } quiet) =
     some { w0 with fins := ["a", "b"], matchDel := false, rv := 1 } := by decide
 
-/-- The hypotheses of `no_lost_wakeup` / `released_under_fairness` are met on a guarded-reachable state of
-the wake-up layer: finalizer added, deletion requested, the handler finished — two events queued. -/
-example : ∃ s, LReachG "k" s ∧ Waiting "k" s.base ∧ Settled s.base ∧ s.events = 2 := by
-  let mk (b : State) (n : Nat) : LState :=
-    { base := b, events := n, sleeping := false, cycDelays := false, cycMerge := false, cycChanges := false }
-  have s0 : LReachG "k" (mk w0 1) := LReachG.init ⟨⟨rfl, rfl, rfl, rfl, rfl, rfl, rfl⟩, rfl, rfl, rfl, rfl, rfl⟩
-  have s1 := LReachG.step (l := .base (.decide quiet)) s0 trivial
-    (s' := mk { w0 with pending := some ⟨[Fn.block], 0, [], false⟩ } 0) (by decide)
-  have s2 := LReachG.step (l := .base (.jsonPatch false)) s1 rfl (s' := mk { w0 with fins := ["k"], rv := 1 } 1) (by decide)
-  have s3 := LReachG.step (l := .base .mark) s2 trivial (s' := mk { w0 with fins := ["k"], rv := 2, marked := true } 2) (by decide)
+/-- The hypotheses of `no_lost_wakeup` / `release_reachable_when_quiet` are met on a guarded-reachable state of
+the wake-up layer: finalizer added, deletion requested, the handler finished — two events queued, both marked? no:
+the first one (the operator's own write) still shows the object unmarked, so it is taken first. -/
+example : ∃ s, LReachG "k" s ∧ Waiting "k" s.base ∧ Settled s.base ∧ s.queue.length = 1 ∧ ∀ v ∈ s.queue, v.marked = true := by
+  let mk (b : State) (q : List Snap) (vr : Nat) : LState :=
+    { base := b, queue := q, sleeping := false, cycDelays := false, cycMerge := false, cycChanges := false, cycViewRv := vr }
+  have s0 : LReachG "k" (mk w0 [snap w0] 0) := LReachG.init ⟨⟨rfl, rfl, rfl, rfl, rfl, rfl, rfl⟩, rfl, rfl, rfl, rfl, rfl⟩
+  have s1 := LReachG.step (l := .base (.decide quiet ⟨0, false, [], true, false⟩)) s0 trivial
+    (s' := mk { w0 with pending := some ⟨[Fn.block], 0, [], false, false⟩ } [] 0) (by decide)
+  have s2 := LReachG.step (l := .base (.jsonPatch false)) s1 rfl
+    (s' := mk { w0 with fins := ["k"], rv := 1 } [⟨1, false, ["k"], true, false⟩] 0) (by decide)
+  have s3 := LReachG.step (l := .base .mark) s2 trivial
+    (s' := mk { w0 with fins := ["k"], rv := 2, marked := true } [⟨1, false, ["k"], true, false⟩, ⟨2, true, ["k"], true, false⟩] 0) (by decide)
   have s4 := LReachG.step (l := .base .handlerFinishes) s3 trivial
-    (s' := mk { w0 with fins := ["k"], rv := 2, marked := true, delDone := true } 2) (by decide)
-  exact ⟨_, s4, ⟨rfl, rfl, by decide⟩, ⟨fun _ => rfl, rfl⟩, rfl⟩
+    (s' := mk { w0 with fins := ["k"], rv := 2, marked := true, delDone := true }
+              [⟨1, false, ["k"], true, false⟩, ⟨2, true, ["k"], true, false⟩] 0) (by decide)
+  -- the stale, unmarked event is taken: nothing to do on it (the finalizer is there, the handler matches)
+  have s5 := LReachG.step (l := .base (.decide quiet ⟨1, false, ["k"], true, false⟩)) s4 trivial
+    (s' := mk { w0 with fins := ["k"], rv := 2, marked := true, delDone := true, pending := some ⟨[], 1, ["k"], false, false⟩ }
+              [⟨2, true, ["k"], true, false⟩] 1) (by decide)
+  have s6 := LReachG.step (l := .base (.jsonPatch false)) s5 rfl
+    (s' := mk { w0 with fins := ["k"], rv := 2, marked := true, delDone := true } [⟨2, true, ["k"], true, false⟩] 1) (by decide)
+  exact ⟨_, s6, ⟨rfl, rfl, by decide⟩, ⟨fun _ => rfl, rfl⟩, rfl, by decide⟩
 
 /-- `delDone` is not sticky: a pass that re-schedules the deletion handler (its record was purged) makes
 the object require the finalizer again — and queues no release. -/
-example : run "k" { w0 with fins := ["k"], rv := 2, marked := true, delDone := true } [.decide { quiet with delReset := true }] =
+example : run "k" { w0 with fins := ["k"], rv := 2, marked := true, delDone := true }
+      [.decide { quiet with delReset := true } ⟨2, true, ["k"], true, false⟩] =
     some { w0 with fins := ["k"], rv := 2, marked := true, delDone := false,
-                   pending := some ⟨[], 2, ["k"], false⟩ } := by decide
+                   pending := some ⟨[], 2, ["k"], false, false⟩ } := by decide
 
 end Kopf.C06
